@@ -16,218 +16,11 @@ pub fn pad_align_to(value: usize, align_to: usize) -> (r: usize)
             r as int == pad_spec(value as int, align_to as int),
 { unimplemented!() }
 
-pub open spec fn zeros(n: nat) -> Seq<u8> { Seq::new(n, |i: int| 0u8) }
+//@include inc/ser_prelude.rs
 
-pub open spec fn is_prefix(a: Seq<u8>, b: Seq<u8>) -> bool {
-    a.len() <= b.len() && a =~= b.take(a.len() as int)
-}
+//@include inc/ser_common.tpl
 
-/// a failure while writing the i-th zero of a gap leaves a prefix of the gap
-proof fn lemma_gap_prefix(sink0: Seq<u8>, i: nat, pad: nat, s2: Seq<u8>)
-    requires i < pad,
-        is_prefix(sink0 + zeros(i), s2),
-        is_prefix(s2, sink0 + zeros(i) + seq![0u8]),
-    ensures is_prefix(sink0, s2), is_prefix(s2, sink0 + zeros(pad)),
-{
-    let cur = sink0 + zeros(i);
-    assert(cur + seq![0u8] =~= sink0 + zeros(i + 1));
-    assert(sink0 =~= s2.take(sink0.len() as int)) by {
-        assert(cur =~= s2.take(cur.len() as int));
-        assert forall|j: int| 0 <= j < sink0.len() implies sink0[j] == s2[j] by {
-            assert(cur[j] == s2.take(cur.len() as int)[j]);
-        }
-    }
-    assert(s2 =~= (sink0 + zeros(pad)).take(s2.len() as int)) by {
-        assert(s2 =~= (sink0 + zeros(i + 1)).take(s2.len() as int));
-        assert forall|j: int| 0 <= j < s2.len() implies s2[j] == (sink0 + zeros(pad))[j] by {
-            assert(s2[j] == (sink0 + zeros(i + 1)).take(s2.len() as int)[j]);
-        }
-    }
-}
-
-// =========================================================================
-// errors and traits (verbatim from /repo)
-// =========================================================================
-
-//@item epserde/src/ser/mod.rs name=ser::Error <<pub enum Error {>>
-//@  replace <<FileOpenError(std::io::Error),>> <<>>
-//@end
-
-//@item epserde/src/ser/mod.rs name=ser::Result <<pub type Result<T> = core::result::Result<T, Error>;>>
-//@end
-
-//@item epserde/src/traits/type_info.rs props=C07 name=MaxSizeOf <<pub trait MaxSizeOf: Sized {>>
-//@  body_prefix
-//@|    /// the alignment unit of the type (ghost)
-//@|    spec fn unit() -> nat;
-//@  sub <<fn max_size_of() -> usize;>>
-//@  ret r
-//@  spec
-//@|        ensures r as nat == Self::unit(), is_pow2(r as int),
-//@end
-
-//@item epserde/src/ser/write.rs props=C07,C13 name=WriteNoStd <<pub trait WriteNoStd {>>
-//@  replace <<ser::Result>> <<Result>>
-//@  body_prefix
-//@|    /// the bytes the underlying sink has accepted so far (ghost)
-//@|    spec fn sink(&self) -> Seq<u8>;
-//@|    /// representation invariant
-//@|    spec fn wf(&self) -> bool;
-//@|    /// the position a position-tracking writer reports (ghost)
-//@|    spec fn wpos(&self) -> nat;
-//@  sub <<fn write_all(&mut self, buf: &[u8]) -> ser::Result<()>;>>
-//@  ret r
-//@  spec
-//@|        requires old(self).wf(),
-//@|            // streams are shorter than the address space (machine arithmetic made explicit)
-//@|            old(self).sink().len() + buf@.len() <= usize::MAX,
-//@|        ensures final(self).wf(),
-//@|            match r {
-//@|                Ok(()) => final(self).sink() =~= old(self).sink() + buf@
-//@|                    && final(self).wpos() == old(self).wpos() + buf@.len(),
-//@|                Err(e) => e is WriteError
-//@|                    && is_prefix(old(self).sink(), final(self).sink())
-//@|                    && is_prefix(final(self).sink(), old(self).sink() + buf@)
-//@|                    && final(self).wpos() == old(self).wpos(),
-//@|            },
-//@  sub <<fn flush(&mut self) -> ser::Result<()>;>>
-//@  ret r
-//@  spec
-//@|        requires old(self).wf(),
-//@|        ensures final(self).wf(), final(self).sink() == old(self).sink(), final(self).wpos() == old(self).wpos(),
-//@|            match r { Ok(()) => true, Err(e) => e is WriteError },
-//@end
-
-//@item epserde/src/ser/write.rs props=C07 name=WriteWithPos <<pub trait WriteWithPos: WriteNoStd {>>
-//@  sub <<fn pos(&self) -> usize;>>
-//@  ret r
-//@  spec
-//@|        requires self.wf(),
-//@|        ensures r as nat == self.wpos(),
-//@end
-
-// =========================================================================
-// the position-tracking writer
-// =========================================================================
-
-//@item epserde/src/ser/write.rs name=WriterWithPos <<pub struct WriterWithPos<'a, F: WriteNoStd> {>>
-//@end
-
-//@item epserde/src/ser/write.rs props=C07 name=WriterWithPos::inherent <<impl<'a, F: WriteNoStd> WriterWithPos<'a, F> {>>
-//@  sub <<pub fn new(backend: &'a mut F) -> Self {>>
-//@  ret r
-//@  spec
-//@|        requires old(backend).wf(),
-//@|        ensures r.wf(), r.sink() == old(backend).sink(), r.wpos() == 0,
-//@end
-
-//@item epserde/src/ser/write.rs props=C07,C13 name=WriterWithPos::WriteNoStd <<impl<F: WriteNoStd> WriteNoStd for WriterWithPos<'_, F> {>>
-//@  replace <<ser::Result>> <<Result>>
-//@  body_prefix
-//@|    closed spec fn sink(&self) -> Seq<u8> { self.backend.sink() }
-//@|    /// the reported position never exceeds what the sink has accepted
-//@|    closed spec fn wf(&self) -> bool { self.backend.wf() && self.pos as nat <= self.backend.sink().len() }
-//@|    closed spec fn wpos(&self) -> nat { self.pos as nat }
-//@  sub <<fn write_all(&mut self, buf: &[u8]) -> ser::Result<()> {>>
-//@  ret r
-//@  sub <<fn flush(&mut self) -> ser::Result<()> {>>
-//@  ret r
-//@end
-
-//@item epserde/src/ser/write.rs props=C07 name=WriterWithPos::WriteWithPos <<impl<F: WriteNoStd> WriteWithPos for WriterWithPos<'_, F> {>>
-//@  sub <<fn pos(&self) -> usize {>>
-//@  ret r
-//@end
-
-// =========================================================================
-// WriteWithNames: align and write_bytes (default methods).
-// `write` is dropped: SerializeInner and WriteWithNames are mutually
-// recursive traits, which Verus rejects; `SerializeInner::_serialize_inner`
-// is dropped for the same reason (the serialization layer is verified with
-// Kani instead).
-// =========================================================================
-
-//@item epserde/src/traits/copy_type.rs name=CopySelector <<pub trait CopySelector {>>
-//@end
-//@item epserde/src/traits/copy_type.rs name=Zero <<pub struct Zero {}>>
-//@end
-//@item epserde/src/traits/copy_type.rs name=Zero::CopySelector <<impl CopySelector for Zero {>>
-//@end
-//@item epserde/src/traits/copy_type.rs name=CopyType <<pub trait CopyType: Sized {>>
-//@end
-//@item epserde/src/traits/copy_type.rs name=ZeroCopy <<pub trait ZeroCopy: CopyType<Copy = Zero> + Copy + MaxSizeOf + 'static {}>>
-//@end
-//@item epserde/src/traits/copy_type.rs name=ZeroCopy::blanket <<impl<T: CopyType<Copy = Zero> + Copy + MaxSizeOf + 'static> ZeroCopy for T {}>>
-//@end
-
-//@item epserde/src/ser/mod.rs name=SerializeInner <<pub trait SerializeInner {>>
-//@  drop <<fn _serialize_inner(&self, backend: &mut impl WriteWithNames) -> Result<()>;>>
-//@end
-
-//@item epserde/src/ser/write_with_names.rs props=C07,C13 name=WriteWithNames <<pub trait WriteWithNames: WriteWithPos + Sized {>>
-//@  drop <<fn write<V: SerializeInner>(&mut self, _field_name: &str, value: &V) -> Result<()> {>>
-//@  sub <<fn align<V: MaxSizeOf>(&mut self) -> Result<()> {>>
-//@  ret r
-//@  spec
-//@|        requires old(self).wf(),
-//@|            old(self).wpos() <= old(self).sink().len(),
-//@|            old(self).sink().len() + V::unit() <= usize::MAX,
-//@|        ensures final(self).wf(),
-//@|            ({
-//@|                let pad = pad_spec(old(self).wpos() as int, V::unit() as int) as nat;
-//@|                match r {
-//@|                    // exactly the minimal zero gap; the position ends on a multiple of the unit
-//@|                    Ok(()) => final(self).sink() =~= old(self).sink() + zeros(pad)
-//@|                        && final(self).wpos() == old(self).wpos() + pad,
-//@|                    // on failure nothing but (part of) the zero gap was handed to the sink
-//@|                    Err(e) => e is WriteError
-//@|                        && is_prefix(old(self).sink(), final(self).sink())
-//@|                        && is_prefix(final(self).sink(), old(self).sink() + zeros(pad)),
-//@|                }
-//@|            }),
-//@  body_prefix
-//@|        let ghost sink0 = self.sink();
-//@|        let ghost wpos0 = self.wpos();
-//@  loop_iter 1 it
-//@  loop 1
-//@|            invariant
-//@|                self.wf(),
-//@|                padding as int == pad_spec(wpos0 as int, V::unit() as int),
-//@|                padding < V::unit(),
-//@|                sink0.len() + V::unit() <= usize::MAX,
-//@|                self.sink() =~= sink0 + zeros(it.index@ as nat),
-//@|                self.wpos() == wpos0 + it.index@,
-//@|                sink0 == old(self).sink(), wpos0 == old(self).wpos(),
-//@  loop_body_prefix 1
-//@|            proof {
-//@|                let i = it.index@ as nat;
-//@|                assert forall|s2: Seq<u8>| #[trigger] is_prefix(s2, sink0 + zeros(i) + seq![0u8]) && is_prefix(sink0 + zeros(i), s2)
-//@|                    implies is_prefix(sink0, s2) && is_prefix(s2, sink0 + zeros(padding as nat)) by {
-//@|                    lemma_gap_prefix(sink0, i, padding as nat, s2);
-//@|                }
-//@|                assert(self.sink() + seq![0u8] =~= sink0 + zeros(i) + seq![0u8]);
-//@|            }
-//@  loop_body_suffix 1
-//@|            proof {
-//@|                assert(zeros(it.index@ as nat) + seq![0u8] =~= zeros((it.index@ + 1) as nat));
-//@|            }
-//@  sub <<fn write_bytes<V: SerializeInner + ZeroCopy>(&mut self, value: &[u8]) -> Result<()> {>>
-//@  ret r
-//@  spec
-//@|        requires old(self).wf(),
-//@|            old(self).sink().len() + value@.len() <= usize::MAX,
-//@|        ensures final(self).wf(),
-//@|            match r {
-//@|                Ok(()) => final(self).sink() =~= old(self).sink() + value@
-//@|                    && final(self).wpos() == old(self).wpos() + value@.len(),
-//@|                Err(e) => e is WriteError
-//@|                    && is_prefix(old(self).sink(), final(self).sink())
-//@|                    && is_prefix(final(self).sink(), old(self).sink() + value@),
-//@|            },
-//@end
-
-//@item epserde/src/ser/write_with_names.rs props=C07 name=WriterWithPos::WriteWithNames <<impl<F: WriteNoStd> WriteWithNames for WriterWithPos<'_, F> {}>>
-//@end
+//@include inc/ser_base.tpl
 
 } // verus!
 fn main() {}
